@@ -271,13 +271,28 @@ var fileCounter struct {
 // (check-sat) and may be followed by (get-model)). The first definitive answer
 // (sat / unsat) wins. which selects solvers by index (nil = all).
 func Solve(script string, timeoutSec int, which []int) SolverResult {
-	if which == nil && timeoutSec > 4 {
+	if (which == nil || len(which) > 2) && timeoutSec > 4 {
 		// stage 1: two quick configurations; most obligations end here
 		r := solveWith(script, 3, []int{0, 3})
 		if r.Status == "unsat" || r.Status == "sat" {
 			return r
 		}
-		return solveWith(script, timeoutSec, nil)
+		// stage 2: the same goal under fewer assumptions (every quantified assumption dropped). "unsat"
+		// there proves the obligation a fortiori; any other answer means nothing and is discarded.
+		if rs := relaxedScript(script); rs != script {
+			r2 := solveWith(rs, 5, []int{0, 1})
+			if os.Getenv("GOCV_DEBUG_RELAX") != "" {
+				fmt.Fprintf(os.Stderr, "relaxed: %s %s %.2fs (%d -> %d bytes)\n", r2.Status, r2.Solver, r2.Seconds, len(script), len(rs))
+				os.WriteFile(fmt.Sprintf("/tmp/relaxdbg_%d.smt2", len(rs)), []byte(rs), 0o644)
+				fmt.Fprintf(os.Stderr, "  raw: %q\n", firstLines(r2.Output, 2))
+			}
+			if r2.Status == "unsat" {
+				r2.Solver += "/ground-core"
+				r2.Seconds += r.Seconds
+				return r2
+			}
+		}
+		return solveWith(script, timeoutSec, which)
 	}
 	return solveWith(script, timeoutSec, which)
 }
